@@ -52,6 +52,10 @@ for name in sorted(os.listdir(os.path.join(ROOT, 'seeded'))):
     finally:
         shutil.rmtree(tmp, ignore_errors=True)
     rec['wall_s'] = round(time.time() - t0, 1)
+    try:
+        res = json.load(open(out))       # other instances may be running on other seeds
+    except Exception:
+        pass
     res[name] = rec
     print('%-7s %-12s demo_rc=%s  %ss' % (name, rec['status'], rec.get('demo_rc'), rec['wall_s']), flush=True)
     json.dump(res, open(out, 'w'), indent=1, sort_keys=True)
